@@ -139,11 +139,12 @@ def _via_array(top_d):
     return top_d
 
 
-def _planted(fault, level, cont, w, via=0):
+def _planted(fault, level, cont, w, via=0, neg=False):
     """a real design fault (C02 planter) caught by whichever pass detects it"""
     from vlib.dsl import ref_valid, Sig
     env._reset_all()
-    top_d = c02.plant(fault, level, 1, w, 2)
+    delta = -1 if (neg and w >= 2) else 1  # (the planter's second variant of each fault class)
+    top_d = c02.plant(fault, level, delta, w, 2)
     if via:
         if level == 0 or fault in (17, 19):
             return True  # (the array variant concerns faults below the top; cycles / name clashes keep the plain instance)
@@ -221,7 +222,7 @@ def _planted(fault, level, cont, w, via=0):
         except Exception as e:
             return _fail("a design no longer containing the offending module raised: " + _norm(e)[-300:])
         env._reset_all()
-        top_t = c02.plant(fault, level, 1, w, 2)
+        top_t = c02.plant(fault, level, delta, w, 2)
         if via:
             _via_array(top_t)
         bt = Builder()
@@ -231,10 +232,25 @@ def _planted(fault, level, cont, w, via=0):
         else:
             mt.m0 = bt.bmod(_fresh_mid(top_t, w))(a=mt.s, g=mt.t)
         return got == _bytes(mt) or _fail("the edited design exported something a fresh process would not")
+    if cont == 5:
+        # the designer edits the failed module WITHOUT repairing it (adds an unrelated signal) and retries: the design is
+        # still ill-formed and its module may be half-rewritten, so no package may come back
+        holder = m if level == 0 else b.mcache[id(top_d.insts[0].of)]
+        try:
+            holder.add(h.Signal(name="spare_late"))
+        except Exception:
+            return True  # (the edit itself was refused)
+        for attempt in range(2):
+            try:
+                h.to_proto(m)
+                return _fail("an ill-formed, half-elaborated design was exported after an unrelated edit")
+            except Exception:
+                pass
+        return True
     # cont == 3: repair the planted fault and retry: fresh result or an exception, never something else
     rep = REPAIRS.get(fault)
-    if rep is None:
-        return True
+    if rep is None or delta < 0:
+        return True  # (repairs are written for the first variant of a fault class)
     iname, port, sig = rep
     holder = m if level == 0 else b.mcache[id(top_d.insts[0].of)]
     try:
@@ -369,17 +385,17 @@ def injected_pass(p, mi, cont, w):
         return _injected(p, mi, cont, w)
 
 
-@harness("C08", args="fault: int, level: int, cont: int, w: int, via: int", pre=[f"0 <= fault < {c02.NFAULT}", "0 <= level <= 1", "0 <= cont <= 4", "1 <= w <= 2", "0 <= via <= 1"],
-         tiers={"quick": {"timeout": 170, "pre": ["w == 2"], "parts": parts_over("cont", range(5))},
-                "thorough": {"timeout": 600, "parts": parts_product(parts_over("cont", range(5)), parts_over("level", range(2)))}},
-         sample=(6, 1, 3, 2, 0),
-         bounds=f"every C02 fault class ({c02.NFAULT}) at top level / one level down (the parent holding the offending module as a plain instance or as an instance array), detected by whichever checking or rewriting pass catches it (incl. faults detected after arrays / bundles / instance bundles were already popped), x 5 continuations (the fifth: the parent's instance of the offending module is replaced by a valid module, then the parent is exported); repairs for 7 fault classes",
+@harness("C08", args="fault: int, level: int, cont: int, w: int, via: int, neg: bool", pre=[f"0 <= fault < {c02.NFAULT}", "0 <= level <= 1", "0 <= cont <= 5", "1 <= w <= 2", "0 <= via <= 1"],
+         tiers={"quick": {"timeout": 170, "pre": ["w == 2"], "parts": parts_over("cont", range(6))},
+                "thorough": {"timeout": 600, "parts": parts_product(parts_over("cont", range(6)), parts_over("level", range(2)))}},
+         sample=(6, 1, 3, 2, 0, False),
+         bounds=f"every C02 fault class ({c02.NFAULT}) at top level / one level down (the parent holding the offending module as a plain instance or as an instance array), detected by whichever checking or rewriting pass catches it (incl. faults detected after arrays / bundles / instance bundles were already popped), x 6 continuations (the sixth: an unrelated edit of the failed module, then a retry - still no package; the fifth: the parent's instance of the offending module is replaced by a valid module, then the parent is exported); repairs for 7 fault classes",
          generalises="fault / location / continuation selectors (solver-enumerated)", outside="")
-def planted_fault(fault, level, cont, w, via):
+def planted_fault(fault, level, cont, w, via, neg):
     P = env.pick
-    fault, level, cont, w, via = P(fault, 0, c02.NFAULT - 1), P(level, 0, 1), P(cont, 0, 4), P(w, 1, 2), P(via, 0, 1)
+    fault, level, cont, w, via = P(fault, 0, c02.NFAULT - 1), P(level, 0, 1), P(cont, 0, 5), P(w, 1, 2), P(via, 0, 1)
     with env.notrace():
-        return _planted(fault, level, cont, w, via)
+        return _planted(fault, level, cont, w, via, bool(neg))
 
 
 @harness("C08", args="nfail: int, a: int, pre: int", pre=["1 <= nfail <= 3", "1 <= a <= 3", "0 <= pre <= 2"], tiers={"quick": {"timeout": 120}}, sample=(1, 2, 0),
